@@ -164,14 +164,14 @@ def signature(harness, params, rec):
 def jobs(tier):
     q = tier == "quick"
     out = []
-    for f in (("oid", "path") if q else ("oid", "path", "mixed", "oid-ci")):
+    for f in (("oid", "path") if q else ("oid", "path", "mixed")):
         # first start over accounts that already hold content: a stop request inside the start-up walk, then a restart
         out.append({"harness": "cold-stop", "params": {"flavour": f, "mode": "stop", "pre": 1 if q else 2, "post": 1 if q else 2, "maxobj": 5},
                     "label": "%s/cold-start/stop-inside-walk" % f})
         for v in VARIANTS:
             for side in (0, 1):
                 for op in OPS:
-                    out.append({"harness": "restart", "params": {"flavour": f, "variant": v, "maxcut": 2 if q else 4, "offline": 1, "first": [side, op]},
+                    out.append({"harness": "restart", "params": {"flavour": f, "variant": v, "maxcut": 2 if q else 3, "offline": 1, "first": [side, op]},
                                 "label": "%s/%s/first=%d:%s" % (f, v, side, op)})
                     if v == "intact" and f in ("oid", "path"):
                         out.append({"harness": "restart", "params": {"flavour": f, "variant": v, "maxcut": 1, "offline": 0, "midbatch": True, "first": [side, op]},
